@@ -168,47 +168,45 @@ Fixpoint bools_eqb (a b : list bool) : bool :=
   end.
 
 (** The activator part of one leg conforms: same handlers started with the same in-states in the same
-    order, same activation flags, same trash list. *)
-Definition leg_conf (w : wiring) (s : astate) (pre : option nat) (l : aleg) : option astate :=
-  let r := match pre with
-           | None => act_first w s (gen_of l)
-           | Some h => act_update w s (nth h (w_tagger_of w) 0) (gen_of l)
-           end in
-  match r with
-  | None => None
-  | Some (s1, tr) =>
-      if torun_eqb tr (l_torun l) && bools_eqb (a_active s1) (l_active l) then
-        let '(s2, tl) := act_trash w s1 (nth (l_pick l) (w_tagger_of w) 0) in
-        if nats_eqb tl (l_trash l) then Some s2 else None
-      else None
+    order, same activation flags, same trash list.  [run_states] returns the activator states right
+    after each call of [get_event_handlers_to_run] ([None] if the recorded run deviates from the model). *)
+Definition tg (w : wiring) (h : nat) : nat := nth h (w_tagger_of w) 0.
+
+Definition upd (w : wiring) (s : astate) (pre : option nat) (l : aleg) :=
+  match pre with
+  | None => act_first w s (gen_of l)
+  | Some h => act_update w s (tg w h) (gen_of l)
   end.
 
-Fixpoint run_conf (w : wiring) (s : astate) (pre : option nat) (ls : list aleg) : bool :=
+Fixpoint run_states (w : wiring) (s : astate) (pre : option nat) (ls : list aleg) : option (list astate) :=
   match ls with
-  | [] => true
+  | [] => Some []
   | l :: rest =>
-      match leg_conf w s pre l with
-      | Some s' => run_conf w s' (Some (l_pick l)) rest
-      | None => false
+      match upd w s pre l with
+      | None => None
+      | Some (s1, tr) =>
+          if torun_eqb tr (l_torun l) && bools_eqb (a_active s1) (l_active l) then
+            if nats_eqb (snd (act_trash w s1 (tg w (l_pick l)))) (l_trash l) then
+              match run_states w (fst (act_trash w s1 (tg w (l_pick l)))) (Some (l_pick l)) rest with
+              | Some us => Some (s1 :: us)
+              | None => None
+              end
+            else None
+          else None
       end
   end.
+
+Definition run_conf (w : wiring) (s : astate) (pre : option nat) (ls : list aleg) : bool :=
+  match run_states w s pre ls with Some _ => true | None => false end.
 
 (** ** The frame condition checked on consecutive legs (C09).
     Tagger kinds: identity-sensitive (multiset of in-states matters), count-only, one-shot. *)
 Inductive tkind := TIdentity | TCount | TOneShot.
 
-(** Multiset equality of in-state lists (decidable, by removal). *)
-Fixpoint remove_one (x : instate) (l : list instate) : option (list instate) :=
-  match l with
-  | [] => None
-  | y :: r => if instate_eqb x y then Some r
-              else match remove_one x r with Some r' => Some (y :: r') | None => None end
-  end.
-Fixpoint mset_eqb (a b : list instate) : bool :=
-  match a with
-  | [] => match b with [] => true | _ => false end
-  | x :: a' => match remove_one x b with Some b' => mset_eqb a' b' | None => false end
-  end.
+(** Multiset equality of in-state lists: equal multiplicity of every element. *)
+Definition count (i : instate) (l : list instate) : nat := length (filter (instate_eqb i) l).
+Definition mset_eqb (a b : list instate) : bool :=
+  forallb (fun i => Nat.eqb (count i a) (count i b)) (a ++ b).
 
 Definition rel_kind (k : tkind) (a b : list instate) : bool :=
   match k with
